@@ -143,6 +143,12 @@ func c02Cases() []c02Case {
 			// a path of length 4 exists to the root, but not "through the intermediate carried in the quote" plus root
 			return mk(c, ca, a.PKI.Root), c.Key
 		}, false},
+		{"pck-named-issued-by-root-genuine-int-carried", func(a, b *gen.World) ([]byte, *gen.Key) {
+			// a certificate with the PCK name and the SGX extension issued DIRECTLY by the trusted root; the quote carries
+			// the genuine intermediate and root: a path leaf -> root exists, but not through the intermediate in the quote
+			c := gen.MakeLeaf(a.PKI.Root, gen.LeafSpec{KeyLabel: "c02/rootleaf2", SgxDER: gen.SgxTree(&a.Sgx).Encode()})
+			return mk(c, a.PKI.Int, a.PKI.Root), c.Key
+		}, false},
 		{"pck-named-issued-by-root-root-as-int", func(a, b *gen.World) ([]byte, *gen.Key) {
 			c := gen.MakeLeaf(a.PKI.Root, gen.LeafSpec{KeyLabel: "c02/rootleaf", SgxDER: gen.SgxTree(&a.Sgx).Encode()})
 			return mk(c, a.PKI.Root, a.PKI.Root), c.Key
@@ -495,7 +501,7 @@ func TestC02(t *testing.T) {
 		nFiles := rapid.IntRange(0, 2).Draw(t, "files")
 		nInline := rapid.IntRange(0, 2).Draw(t, "inline")
 		bundle := func(label string) string {
-			kind := rapid.SampledFrom([]string{"one", "one", "two", "with-comment", "empty", "non-pem", "pem-non-cert-only", "large-text-then-root", "root-large-text-root", "root-other-pem-block-root", "root-other-pem-block-root"}).Draw(t, label)
+			kind := rapid.SampledFrom([]string{"one", "one", "two", "with-comment", "empty", "non-pem", "pem-non-cert-only", "large-text-then-root", "root-large-text-root", "root-other-pem-block-root", "root-other-pem-block-root", "look-alike-then-root", "look-alike-then-root"}).Draw(t, label)
 			switch kind {
 			case "empty":
 				broken = "empty bundle"
@@ -517,6 +523,17 @@ func TestC02(t *testing.T) {
 			}
 			if kind == "with-comment" {
 				out = "# trusted root\n" + out + "\ntrailing text\n"
+			}
+			if kind == "look-alike-then-root" {
+				// two authorities with one name: a certificate with the SAME subject and the same subject key identifier
+				// (another key) stands before the listed root - or the other way round. Both are listed.
+				la := gen.NewPKI(gen.PKISpec{Seed: fmt.Sprintf("pki-look-alike-of-%d", i), RootSKI: pkis[i].Root.X.SubjectKeyId})
+				if rapid.Bool().Draw(t, label+"-lookAlikeFirst") {
+					out = string(la.Root.PEM) + out
+				} else {
+					out = out + string(la.Root.PEM)
+				}
+				gen.Class("rot:bundle-with-two-authorities-of-one-name-and-key-identifier")
 			}
 			if kind == "root-other-pem-block-root" {
 				// a bundle file that also carries PEM blocks of other kinds (the CA's CRL, a public key, parameters, a block
